@@ -25,6 +25,7 @@ type State struct {
 	blocksRequested    []*requestedBlock // Blocks that have been requested
 	blocksToRequest    []bitcoin.Hash32  // Blocks that need to be requested
 	pendingBlockSize   int               // The data size (bytes) of the blocks pending processing
+	processingBlock    bool              // a block taken with NextBlock is being processed
 	lastSavedHash      bitcoin.Hash32
 	pendingSync        bool // The peer has notified us of all blocks. Now we just have to process to catch up.
 	lock               sync.Mutex
